@@ -100,6 +100,8 @@ def search(chk, broken):
         return u(U.MPS(m) >> u)
 
     for k in range(n):
+        if chk.over():
+            break
         v0 = rng.uniform(200, 1300)
         t0 = rng.uniform(-30, 40)
         # all four orderings, cyclically
@@ -138,6 +140,8 @@ def search(chk, broken):
     # --- the solver launches with the velocity for the atmosphere's powder temperature
     calc = pbc.Calculator()
     for k in range(4 if chk.tier == 'quick' else 40):
+        if chk.over():
+            break
         v0, t0, m = rng.uniform(300, 1000), rng.uniform(0, 30), rng.uniform(0.005, 0.03)
         a = pbc.Ammo(dm, U.MPS(v0), U.Celsius(t0), m, True)
         air = rng.uniform(-20, 35)
